@@ -47,7 +47,7 @@ pub fn budget(prop: &str, tier: Tier) -> u64 {
         "C13" => c13_cases().len() as u64,
         "C14" => 120_000,
         "C15" => 100_000,
-        "C16" => 5_000,
+        "C16" => 2_500,
         "C17" => 100_000,
         "C18" => 25_000,
         _ => 1000,
@@ -905,25 +905,37 @@ pub fn c15(seed: u64, tier: Tier) -> Vec<Episode> {
 pub fn c16(seed: u64, tier: Tier) -> Vec<Episode> {
     let thorough = tier == Tier::Thorough;
     let mut g = Gen::new(seed, thorough);
-    let kt = ktype_pick(&mut g.rng);
-    let params = if g.rng.chance(1, 2) { small_params(&mut g.rng) } else { pick_params(&mut g.rng, false) };
-    let maps = single_map(&mut g.rng, kt, params);
+    // one map, or several maps of mixed key types so that the database-level calls have to
+    // carry the error of a map that is not the last one they visit
+    let nm = *g.rng.pick(&[1usize, 1, 2, 3, 4]);
+    let names = map_names();
+    let mut order: Vec<usize> = (0..names.len()).collect();
+    crate::runner::seeded_shuffle(&mut order, &mut g.rng);
+    let maps: Vec<MapSpec> = (0..nm)
+        .map(|i| MapSpec { name: names[order[i]].to_string(), kt: ktype_pick(&mut g.rng), params: if g.rng.chance(1, 2) { small_params(&mut g.rng) } else { pick_params(&mut g.rng, false) }, dir: 0 })
+        .collect();
+    let multi = nm > 1;
     let mut w = Weights::basic();
     w.flush = 1;
     let vd = *g.rng.pick(&[ValDist::Boundary, ValDist::Mixed, ValDist::Pushing]);
     let cfg = HistCfg { maps: maps.clone(), alphabet: g.rng.range(2, 20) as usize, kd: KeyDist::Mixed, vd, steps: g.rng.range(3, 60) as usize, w, one_bucket: false, reopen_params: false, xproc_every: 0, bulk_max: 0 };
     let mut st = history(&mut g, &cfg);
     fn sync(g: &mut Gen) -> Step {
-        match g.rng.below(4) {
+        match g.rng.below(5) {
             0 => Step::Flush { h: 0 },
             1 => Step::SyncAll { h: 0 },
             2 => Step::SyncData { h: 0 },
+            3 => Step::DbSyncData { d: 0 },
             _ => Step::DbSyncAll { d: 0 },
         }
     }
     // target call (the one that is made to fail in the derived episodes)
     st.push(Step::Nop); // slot for a size cap in derived episodes
-    st.push(sync(&mut g));
+    if multi {
+        st.push(if g.rng.chance(1, 2) { Step::DbSyncAll { d: 0 } } else { Step::DbSyncData { d: 0 } });
+    } else {
+        st.push(sync(&mut g));
+    }
     st.push(Step::Audit);
     // the application goes on while the condition persists
     let cfg2 = HistCfg { steps: g.rng.range(0, 12) as usize, w: Weights::basic(), ..cfg.clone() };
